@@ -338,10 +338,12 @@ def r1(ctx, r):
         for e in common.member_calls_on(f, KV + "::_cache", ("erase", "clear")):
             if last(f.name) in ("invalidateCache", "updateCache"):
                 continue
+            n += 1
             r.instance()
             r.expect(la.holds(f, e, M), f, e, "cache erase outside _mutex", "%s erases from the cache without _mutex" % short(f.name), okdesc="%s: cache erase under _mutex" % short(f.name))
-    if n < 6:
-        raise AnalysisBroken("only %d cache update/invalidate calls found" % n)
+    # floor over both spellings of cache maintenance (a call of updateCache/invalidateCache, or the erase written out where the helper was inlined): 7 + 8 on the pinned tree
+    if n < 12:
+        raise AnalysisBroken("only %d cache maintenance sites (update/invalidate calls, inline erases) found" % n)
     # lock order _mutex → _cacheMutex, _evictionMutex leaf
     from .c05 import lock_acquisitions
     for f in fb.in_file(KVF):
@@ -477,9 +479,17 @@ class ExpiryFacts:
         v = arg_var(x)
         return is_clock_call(x) or (v is not None and v.get("d") in self.clock)
 
+    def deref(self, v):
+        n = through_const_local(self.f, v)
+        while n is not None and n.get("k") == "ctor" and n.get("copy") and len(n.get("args", [])) == 1:
+            n = strip_casts(strip_wrappers(n["args"][0]))
+        return n if n is not None else v
+
     def leaf(self, n):
         for (op, l, rr) in common.cmp_both(n):
             l0, r0 = strip_casts(strip_wrappers(l)), strip_casts(strip_wrappers(rr))
+            if l0.get("k") == "var":      # `const auto deadline = eit->second.expiry; if (deadline <= now)`: a local that is never assigned again stands for its initialiser
+                l0 = self.deref(l0)
             fld = l0.get("n") if l0.get("k") == "member" else None
             if fld == CEXP and self.is_now(rr):
                 return A("clive") if op == ">" else (Not(A("clive")) if op == "<=" else None)
@@ -962,7 +972,12 @@ def r3(ctx, r):
                      "lives to a different deadline" % (what, pat), okdesc="%s(ttl): %s carries %s" % (name, what, pat))
     for name, expect in (("expireAt", "when"), ("persist", None)):
         f = kvf(ctx, name)
-        inv = [e for e in f.stmts() if e.node.get("k") == "mcall" and e.node.get("callee") == KV + "::invalidateCache"]
+        # 'the cached entry of the key is dropped': `_cache.erase(key)` written out, or a call of a helper of the store that erases its key parameter from the cache
+        # on all of its paths (invalidateCache) — the key is the method's string parameter
+        kps = [p_ for p_ in f.params if "basic_string" in p_.get("t", "")]
+        if len(kps) != 1:
+            raise AnalysisBroken("%s: key parameter not recognised" % name)
+        inv = clear_sites(fb, f, KV + "::_cache", kps[0]["d"])
         chg = [e for (e, n, k) in common.field_writes(f, KV + "::_expiry")]
         r.instance()
         r.expect(inv and chg and all(any(search(f, c, lambda x, i=i: x is i, eh=False) is not None or elem_dominates(f, i, c) for i in inv) for c in chg) and
